@@ -204,7 +204,8 @@ class ModbusUdpProtocol(protocol.DatagramProtocol):
         #self.framer.populateResult(response)
         response.transaction_id = request.transaction_id
         response.unit_id = request.unit_id
-        self._send(response, addr)
+        if response.should_respond:
+            self._send(response, addr)
 
     def _send(self, message, addr):
         """ Send a request (string) to the network
